@@ -8,7 +8,7 @@ CONFIG = {
     "coq_dirs": ["theories/Store"],
     "coq_targets": ["theories/Store/Properties.vo", "theories/Store/Corr.vo"],
     "properties_files": ["theories/Store/Properties.v"],
-    "required_theorems": [],
+    "required_theorems": ["no_lost_update", "one_handle_per_digest", "failed_write_requeued", "returned_handle_current"],
     "violation_kinds": ["C07:store-"],
     "harnesses": [
         {"cmd": "store", "cases_quick": 400, "cases_thorough": 16000, "shards_quick": 8, "shards_thorough": 32, "race": True},
@@ -26,5 +26,7 @@ CONFIG = {
     "assumptions": [
         "a storage call's completion and the critical section that follows it are one atomic event (the harness cannot separate them either)",
         "data-race freedom outside ss.lock; Go mutex/errgroup semantics",
+        "partial: the three checks of the trace monitor (Store/Spec.v mon_step) are proved of the model as state/step theorems (no_lost_update, one_handle_per_digest, returned_handle_current); the bookkeeping that links the monitor's own view of outstanding Gets/handles to the model state is not mechanised",
+        "known finding C07:store-stale-read (read overtaken by a completed write-back) is a property of the repaired code too: returned_handle_latest_refuted",
     ],
 }
